@@ -1,4 +1,8 @@
 //! Counting global allocator: per-thread "largest single allocation request since mark" (C06).
+//! It is also the seam for one more source of nondeterminism: the contents of fresh heap memory.
+//! Code under test that emits reserved-but-unwritten bytes (a seeded change did: the 5-byte frame
+//! prefix of a message whose encoding failed) would otherwise put allocator garbage on the wire,
+//! and the run would not replay. Every allocation is zero-filled, so such bytes read as zeros.
 
 use std::alloc::{GlobalAlloc, Layout, System};
 use std::cell::Cell;
@@ -37,7 +41,7 @@ fn note(sz: usize) {
 unsafe impl GlobalAlloc for Counting {
     unsafe fn alloc(&self, l: Layout) -> *mut u8 {
         note(l.size());
-        System.alloc(l)
+        System.alloc_zeroed(l)
     }
     unsafe fn dealloc(&self, p: *mut u8, l: Layout) {
         System.dealloc(p, l)
@@ -48,6 +52,11 @@ unsafe impl GlobalAlloc for Counting {
     }
     unsafe fn realloc(&self, p: *mut u8, l: Layout, new_size: usize) -> *mut u8 {
         note(new_size);
-        System.realloc(p, l, new_size)
+        let q = System.realloc(p, l, new_size);
+        // zero the grown tail (skipped for absurdly large growth, which is never read: C06's 4 GiB probe)
+        if !q.is_null() && new_size > l.size() && new_size - l.size() <= (64 << 20) {
+            std::ptr::write_bytes(q.add(l.size()), 0, new_size - l.size());
+        }
+        q
     }
 }
